@@ -16,6 +16,34 @@ import (
 	"go/token"
 )
 
+// putEscapes: some object given to Put is returned by the function or stored
+// in an object that is not local to it.
+func (ft *FT) putEscapes() bool {
+	if len(ft.putRoots) == 0 {
+		return false
+	}
+	for k := range ft.putRoots {
+		if _, ok := ft.retSet[k]; ok {
+			return true
+		}
+	}
+	for rk, flds := range ft.contains {
+		if len(rk) >= 2 && rk[:2] == "3L" { // a local object (Root.key): fine unless it escapes itself
+			if _, esc := ft.retSet[rk]; !esc {
+				continue
+			}
+		}
+		for _, s := range flds {
+			for k := range ft.putRoots {
+				if _, ok := s[k]; ok {
+					return true
+				}
+			}
+		}
+	}
+	return false
+}
+
 var poolMemo = map[string]bool{}
 
 func (ft *FT) poolFresh(x ast.Expr) bool {
